@@ -184,7 +184,7 @@ func runC02(o Opts) error {
 						mut(append([]byte{0x20, 0, 0, 0}, t...), "datetime-patterns")
 					}
 				case "types.SystemDate":
-					for _, p := range [][]byte{{0, 0, 0}, {0x24, 0x02, 0x29}, {0x23, 0x02, 0x29}, {0x69, 0x01, 0x01}, {0x68, 0x12, 0x31}, {0x99, 0x12, 0x31}, {0x00, 0x01, 0x01}, {0x24, 0x13, 0x01}, {0x24, 0x00, 0x01}, {0x24, 0x01, 0x00}, {0x2a, 0x01, 0x01}, {0x24, 0x01, 0x32}} {
+					for _, p := range [][]byte{{0, 0, 0}, {0x24, 0x02, 0x29}, {0x23, 0x02, 0x29}, {0x00, 0x02, 0x29}, {0x00, 0x02, 0x30}, {0x68, 0x02, 0x29}, {0x69, 0x02, 0x29}, {0x72, 0x02, 0x29}, {0x69, 0x01, 0x01}, {0x68, 0x12, 0x31}, {0x99, 0x12, 0x31}, {0x00, 0x01, 0x01}, {0x24, 0x13, 0x01}, {0x24, 0x00, 0x01}, {0x24, 0x01, 0x00}, {0x2a, 0x01, 0x01}, {0x24, 0x01, 0x32}} {
 						mut(p, "sysdate-patterns")
 					}
 				case "types.SystemTime":
@@ -240,6 +240,7 @@ func runC02(o Opts) error {
 	}
 	if o.Replay == "" {
 		dstC02(s, r)
+		latencyProbe(s, r)
 	}
 	return s.Close()
 }
